@@ -59,6 +59,9 @@ func init() {
 func c06Premises(c *Ctx, p *Prog) {
 	// "unless the game is over": whether the root counts as drawn by repetition is Threefold's answer
 	c.As("C10.R", "C06.R7.repetition:R", func() { c10R1R2(c, p) })
+	// the search must return at all: the PV buffer's row index stays inside the buffer for every ply (an index past
+	// the end panics in the middle of a deep search and no move is ever returned)
+	c.As("C07.R2", "C06.R8.pv-rows", func() { c07Rows(c, p) })
 }
 
 func runC06(c *Ctx) {
@@ -787,8 +790,8 @@ func c06R6(c *Ctx, p *Prog) {
 func init() {
 	addMutants(
 		Mutant{Name: "C06.R6-exact-tt-cutoff-in-pv-nodes", Prop: "C06", File: "search/search.go",
-			Old: "\t\tif nType != PVNode && transpE.Depth() >= d {\n\t\t\ttpVal := transpE.Value(ply)\n\n\t\t\tswitch transpE.Type() {\n\n\t\t\tcase transp.Exact:\n\t\t\t\treturn tpVal\n\n\t\t\tcase transp.LowerBound:\n\t\t\t\tif tpVal >= beta {",
-			New: "\t\tif transpE.Depth() >= d {\n\t\t\ttpVal := transpE.Value(ply)\n\n\t\t\tswitch transpE.Type() {\n\n\t\t\tcase transp.Exact:\n\t\t\t\treturn tpVal\n\n\t\t\tcase transp.LowerBound:\n\t\t\t\tif nType != PVNode && tpVal >= beta {",
+			Old:    "\t\tif nType != PVNode && transpE.Depth() >= d {\n\t\t\ttpVal := transpE.Value(ply)\n\n\t\t\tswitch transpE.Type() {\n\n\t\t\tcase transp.Exact:\n\t\t\t\treturn tpVal\n\n\t\t\tcase transp.LowerBound:\n\t\t\t\tif tpVal >= beta {",
+			New:    "\t\tif transpE.Depth() >= d {\n\t\t\ttpVal := transpE.Value(ply)\n\n\t\t\tswitch transpE.Type() {\n\n\t\t\tcase transp.Exact:\n\t\t\t\treturn tpVal\n\n\t\t\tcase transp.LowerBound:\n\t\t\t\tif nType != PVNode && tpVal >= beta {",
 			Expect: "C06.R6/alphaBeta#tt-cutoff"},
 		Mutant{Name: "C06.R3-fallback-quiets-only-without-captures", Prop: "C06", File: "search/search.go",
 			Old: "\t\t\t\t\tmovegen.GenNotNoisy(s.ms, b)\n\t\t\t\t\tmoves := s.ms.Frame()\n", New: "\t\t\t\t\tif len(s.ms.Frame()) == 0 {\n\t\t\t\t\t\tmovegen.GenNotNoisy(s.ms, b)\n\t\t\t\t\t}\n\t\t\t\t\tmoves := s.ms.Frame()\n",
